@@ -62,9 +62,10 @@ type Family struct {
 }
 
 type Source struct {
-	P     string `json:"p"`
-	Title string `json:"title"`
-	Auth  string `json:"auth"`
+	P     string   `json:"p"`
+	Title string   `json:"title"`
+	Auth  string   `json:"auth"`
+	Lines []string `json:"lines"` // further lines of the record, verbatim (seeded cases only)
 }
 
 type Doc struct {
@@ -212,6 +213,9 @@ func Render(d Doc) string {
 		if s.Auth != "" {
 			fmt.Fprintf(&b, "1 AUTH %s\n", s.Auth)
 		}
+		for _, l := range s.Lines {
+			b.WriteString(l + "\n")
+		}
 	}
 	b.WriteString("0 TRLR\n")
 	return b.String()
@@ -290,6 +294,8 @@ func group(name string) string {
 	switch {
 	case strings.HasPrefix(name, "individuals-"):
 		return "index"
+	case strings.HasPrefix(name, "diff-") || strings.HasPrefix(name, "query-"):
+		return "extra"
 	case name == "places.html" || name == "families.html" || name == "surnames.html" || name == "sources.html" || name == "statistics.html":
 		return "fixed"
 	}
@@ -299,6 +305,8 @@ func group(name string) string {
 var nonAlnum = regexp.MustCompile(`[^a-zA-Z0-9]+`)
 
 func cid(name string) string {
+	// the token as PageSource writes it (dash and hexadecimal value per character)
+	name = strings.Replace(name, "-3cq7-22-27-26-3e", "q7", -1)
 	return strings.Replace(nonAlnum.ReplaceAllString(name, ""), "q7", "", -1)
 }
 
@@ -487,19 +495,22 @@ func Child(r io.Reader, w io.Writer) error {
 }
 
 func extras(doc *gedcom.Document, otherText string, mw *memWriter) {
-	other, _ := gedcom.NewDocumentFromString(otherText)
-	// the diff report between the two documents
-	for _, show := range []string{ghtml.DiffPageShowAll, ghtml.DiffPageShowOnlyMatches, ghtml.DiffPageShowSubset} {
-		co := gedcom.NewIndividualNodesCompareOptions()
-		cmp := doc.Individuals().Compare(other.Individuals(), co)
-		progress := make(chan gedcom.Progress)
-		go func() {
-			for range progress {
-			}
-		}()
-		page := ghtml.NewDiffPage(cmp, &gedcom.FilterFlags{}, "", show, ghtml.DiffPageSortWrittenName, progress, co, ghtml.LivingVisibilityShow)
-		mw.WriteFile(core.NewFile("diff-"+show+".html", page))
-		close(progress)
+	// the diff report: the document against itself (everybody matches) and against an empty one (nobody does), so that
+	// which rows there are does not depend on how similar the values are
+	empty := gedcom.NewDocument()
+	for _, other := range []*gedcom.Document{doc, empty} {
+		for _, show := range []string{ghtml.DiffPageShowAll, ghtml.DiffPageShowOnlyMatches, ghtml.DiffPageShowSubset} {
+			co := gedcom.NewIndividualNodesCompareOptions()
+			cmp := doc.Individuals().Compare(other.Individuals(), co)
+			progress := make(chan gedcom.Progress)
+			go func() {
+				for range progress {
+				}
+			}()
+			page := ghtml.NewDiffPage(cmp, &gedcom.FilterFlags{}, "", show, ghtml.DiffPageSortWrittenName, progress, co, ghtml.LivingVisibilityShow)
+			mw.WriteFile(core.NewFile(fmt.Sprintf("diff-%s-%d.html", show, len(other.Individuals())), page))
+			close(progress)
+		}
 	}
 	// query results in HTML format
 	for k, query := range []string{".Individuals | .Name | .String", ".Individuals | { name: .Name | .String, born: .Birth | .String, place: .Births | .Places }",
@@ -728,6 +739,11 @@ func normDoc(d *Doc) {
 		}
 		if d.People[i].Lines == nil {
 			d.People[i].Lines = []string{}
+		}
+	}
+	for i := range d.Sources {
+		if d.Sources[i].Lines == nil {
+			d.Sources[i].Lines = []string{}
 		}
 	}
 	for i := range d.Families {
